@@ -58,14 +58,14 @@ Theorem C10_bundle_bvp_right : forall venv penv fenv lk thetas a_t0 a_u0 a_t1 a_
   eval venv penv fenv e = eval venv penv fenv u1.
 Proof. exact bundle_bvp_right. Qed.
 
-(* the code IS the model for every lookup of the quantifier (94 + 209 generated modes) *)
+(* the code IS the model for every lookup of the quantifier (110 + 251 generated modes: every injective table over 4 columns and every table, injective or not, over 2 columns) *)
 Theorem C10_generated_ivp_is_model : forall m ts, In (m, ts) index_ivp -> exists e, ivp_model m = Some e /\ ts = [e].
 Proof. exact generated_ivp_is_model. Qed.
 
 Theorem C10_generated_bvp_is_model : forall m ts, In (m, ts) index_bvp -> exists e, bvp_model m = Some e /\ ts = [e].
 Proof. exact generated_bvp_is_model. Qed.
 
-Theorem C10_index_sizes : List.length index_ivp = 94%nat /\ List.length index_bvp = 209%nat.
+Theorem C10_index_sizes : List.length index_ivp = 110%nat /\ List.length index_bvp = 251%nat.
 Proof. exact index_sizes. Qed.
 
 Theorem C10_rejects : ivp_reject_name.raises = true /\ bvp_reject_name.raises = true.
